@@ -117,6 +117,15 @@ def ev_image(case, ctx):
         ctx.nontrivial(tag)
     ctx.outcome("in=%d,out=%d" % (min(1, int(np.sum(inside))), min(1, int(np.sum(~inside)))))
     base = (np.arange(rows * cols, dtype=np.float32).reshape(shape) * 0.5 + 1.0)
+    # blank pixels that are already in the input (inside and outside the region, different in every plane of a cube) must
+    # stay what they are and must not spread to other planes
+    pre = [np.zeros(shape, dtype=bool) for _ in range(3)]
+    idx_in, idx_out = np.argwhere(inside & ok), np.argwhere(~inside & ok)
+    for k in range(3):
+        for idx in (idx_in, idx_out):
+            if len(idx) > k + 1:
+                pre[k][tuple(idx[(len(idx) * (k + 1)) // 4])] = True
+                pre[k][tuple(idx[(k * 7 + 1) % len(idx)])] = True
     d = os.environ["VERIF_SCRATCH"]
     fin, fout, fmim = [os.path.join(d, n) for n in ("m_in.fits", "m_out.fits", "m.mim")]
     reg.save(fmim)
@@ -127,17 +136,21 @@ def ev_image(case, ctx):
             ctx.count("mask_call")
             sig = "%s,negate=%s,%s" % (tag, negate, dims)
             try:
+                def with_pre(k):
+                    a_ = base + 1000 * k
+                    a_[pre[k]] = np.nan
+                    return a_
                 if dims == "plane":
                     import copy
-                    planes = [MIMAS.mask_plane(base.copy(), wcs, copy.deepcopy(reg), negate=negate)]
-                    ref_planes = [base]
+                    planes = [MIMAS.mask_plane(with_pre(0), wcs, copy.deepcopy(reg), negate=negate)]
+                    ref_planes = [with_pre(0)]
                 else:
                     if dims == "file2d":
-                        data = base.copy()
+                        data = with_pre(0)
                     elif dims == "file3d":
-                        data = np.stack([base + 1000 * k for k in range(3)])
+                        data = np.stack([with_pre(k) for k in range(3)])
                     else:
-                        data = np.stack([base + 1000 * k for k in range(2)])[None]
+                        data = np.stack([with_pre(k) for k in range(2)])[None]
                     fits.PrimaryHDU(data=data, header=fhdr).writeto(fin, overwrite=True)
                     MIMAS.mask_file(fmim, fin, fout, negate=negate)
                     out = fits.getdata(fout)
@@ -156,7 +169,7 @@ def ev_image(case, ctx):
                 if pl.shape != shape:
                     ctx.violation("plane shape %r (%s)" % (pl.shape, sig), "shape|" + sig)
                     break
-                wrong = (blank != exp_blank) & ok
+                wrong = (blank != (exp_blank | ~np.isfinite(ref))) & ok
                 if np.any(wrong):
                     w = np.argwhere(wrong)[0]
                     ctx.violation("%d of %d pixels wrongly %s, first (row %d, col %d) plane %d (%s)" % (
@@ -164,14 +177,14 @@ def ev_image(case, ctx):
                         "pixels|" + sig)
                     break
                 keep = ~blank
-                if not np.array_equal(pl[keep], ref[keep]):
+                if not np.array_equal(pl[keep], ref[keep], equal_nan=True):
                     ctx.violation("unmasked pixel values changed (%s)" % sig, "values|" + sig)
                     break
             results[(negate, dims)] = [~np.isfinite(pl) for pl in planes]
     for dims in ("plane", "file2d", "file3d", "file4d"):
         if (False, dims) in results and (True, dims) in results:
             a, b = results[(False, dims)][0], results[(True, dims)][0]
-            if a.shape == b.shape and np.any((a == b) & ok):
+            if a.shape == b.shape and np.any((a == b) & ok & ~pre[0]):
                 ctx.violation("negate is not the complement (%s, %s)" % (tag, dims), "complement|%s,%s" % (tag, dims))
     for f in (fin, fout, fmim):
         if os.path.exists(f):
